@@ -46,8 +46,8 @@ def invalid_is_refused_full : Prop :=
 /-- The part that holds: outside the gap classes of `Si.gapOf` (empty allocation key, duplicate allocation key, update of
     a request entry that is allocated but not bound, foreign update naming another node, application with an empty id,
     node capacity with a negative quantity, release of an unknown key for an idle application that still holds request
-    entries) an invalid item is refused as the property demands, in every state. Since the fixes 2c8b858, 258acc8 and
-    74ad7c3 this covers a node without id, a foreign allocation with a negative quantity and a placeholder without task
+    entries) an invalid item is refused as the property demands, in every state. Since the fixes e19e4b6, db32327 and
+    8774879 this covers a node without id, a foreign allocation with a negative quantity and a placeholder without task
     group (see `fixed_classes_now_refused`). -/
 theorem invalid_is_refused_partial (env : Env) (s : Core) (i : Item) (w : Why)
     (hinv : invalid env s i = some w) (hgap : gapOf env s i = none) : refusedAsDemanded env s i = true :=
@@ -138,8 +138,8 @@ theorem invalid_is_refused_full_refuted : ¬ invalid_is_refused_full := by
   have := h env0 s1 wDuplicateKey .duplicateKey (by decide)
   exact absurd this (by decide)
 
-/-- Regression for the three repaired classes (fixes 2c8b858 node without id, 258acc8 foreign allocation with a negative
-    quantity, 74ad7c3 placeholder without task group): the former gap witnesses are invalid, in no gap class any more, and
+/-- Regression for the three repaired classes (fixes e19e4b6 node without id, db32327 foreign allocation with a negative
+    quantity, 8774879 placeholder without task group): the former gap witnesses are invalid, in no gap class any more, and
     refused as demanded — ledgers unchanged, answered with exactly the matching rejection. -/
 theorem fixed_classes_now_refused :
     (invalid env0 s1 wNodeEmptyId = some .emptyId ∧ gapOf env0 s1 wNodeEmptyId = none ∧ refusedAsDemanded env0 s1 wNodeEmptyId = true ∧
